@@ -87,8 +87,46 @@ def alts(s):
         yield s
 
 
+def pomo_training_axes(ctx: Ctx):
+    """C16.h POMO's shared baseline is `reward.mean(dim=1)` of `unbatchify(reward, (n_aug, n_start))`: axis 1 is the start axis only
+    when the augmentation factor is dropped from the layout, i.e. n_aug == 0 -- `unbatchify` skips factors <= 0, while a factor 1
+    yields [batch, 1, starts] and the mean over the singleton axis equals the reward (every advantage 0, no gradient).  So on the
+    training path `n_aug = 0` is reached for EVERY configured num_augment: each condition guarding that assignment reads `phase`
+    only."""
+    import ast
+    rel = "rl4co/models/zoo/pomo/model.py"
+    fi = ctx.repo.get_function(rel, "POMO.shared_step")
+    if fi is None:
+        raise AnalysisError("POMO.shared_step not found")
+    ctx.fn(fi)
+    found = []
+
+    def visit(stmts, guards):
+        for st in stmts:
+            if isinstance(st, ast.Assign) and any(isinstance(t, ast.Name) and t.id == "n_aug" for t in st.targets) and isinstance(st.value, ast.Constant) and st.value.value == 0:
+                found.append((st, list(guards)))
+            if isinstance(st, ast.If):
+                visit(st.body, guards + [st.test])
+                visit(st.orelse, guards + [st.test])
+            elif isinstance(st, (ast.For, ast.While, ast.With, ast.Try)):
+                for blk in ("body", "orelse", "finalbody"):
+                    visit(getattr(st, blk, []) or [], guards)
+    visit(fi.node.body, [])
+    if not found:
+        raise AnalysisError("POMO.shared_step: `n_aug = 0` for the training phase not found")
+    for st, guards in found:
+        names = sorted({x.id for g in guards for x in ast.walk(g) if isinstance(x, ast.Name)})
+        ok = bool(guards) and names == ["phase"]
+        ctx.ob("C16.h", "POMO.shared_step:training-drops-the-augmentation-axis", ok, f"{rel}:{st.lineno}",
+               f"`n_aug = 0` is guarded by {[ast.unparse(g) for g in guards]}" +
+               ("" if ok else f" -- the guard also depends on {[n for n in names if n != 'phase']}: for some configured num_augment the training layout keeps a singleton augmentation axis, "
+                "the shared baseline (mean over axis 1) equals the reward and the loss carries no gradient"),
+               construct="POMO.shared_step:n_aug-reset-guard")
+
+
 def run(ctx: Ctx):
     differentiable_helpers(ctx)
+    pomo_training_axes(ctx)
     critic_value_shape(ctx)
     # the baseline that enters the surrogate is the configured one: settings stored as given, one owner per piece of state
     # (shared with C20.g)
